@@ -8,7 +8,7 @@ from mon.gen import mdp as G
 from mon.ref import mdp as Rf
 
 PROP = "C02"
-CASES = {"quick": 1500, "thorough": 30000}
+CASES = {"quick": 1500, "thorough": 100000}
 CASE_TIMEOUT = 60
 REQUIRED = ["evaluate_on_calls", "values_compared", "minus_inf_pattern_compared", "to_tabular_calls"]
 RULE = ("random stochastic policies (rows with zeros / deterministic rows) x random MDP specs "
